@@ -4,6 +4,7 @@ import (
 	"fmt"
 	"net"
 	"net/netip"
+	"strconv"
 )
 
 type Addr struct {
@@ -35,7 +36,7 @@ func (a Addr) Network() string {
 }
 
 func (a Addr) String() string {
-	return fmt.Sprintf("%s:%d", a.IP.String(), a.Port)
+	return net.JoinHostPort(a.IP.String(), strconv.Itoa(int(a.Port)))
 }
 
 func (a *Addr) UnmarshalText(x []byte) error {
